@@ -9,7 +9,7 @@ TECHNIQUE = ("Coq theorems (induction over all request histories) over a hand-wr
              "(childNodes/childRefs/childRefNames/deleted, renameChildTo, notifyNameChange, markChildDeleted) composed with a path-addressed "
              "backend model (PathFS); model and backend twin tied to the code by a differential against the real Server.Handle plus gated "
              "two-connection scenarios; static tie: go2coq/RefsGen event skeletons of notifyNameChange, renameChildTo, markChildDeleted, "
-             "notifyDelete, doWalk, DecRef, stop = a table reviewed against the model")
+             "notifyDelete, doWalk, DecRef, stop, Lookup/Insert/DeleteFID = a table reviewed against the model")
 LEVEL_TEXT = ("Proved in Coq. (1) History theorem, every backend: C08_tree_inv (childRefs/childRefNames agree, registered refs are live and sit "
               "under their parent's node, live non-deleted refs are registered, childNodes injective, ids in range). (2) History theorems for the "
               "PathFS backend (pathB, Refs/Coherent*.v, Refs/Notified*.v; they use (1)): C08_coherent - after every history, all request kinds, "
